@@ -66,6 +66,10 @@ HIGHTAGS = ["inh1", "fcb1", "ext.lbl", "ext.lbl+1", "imm.lbl+1", "pcr.lbl+2", "i
 
 
 # a program that defines no symbol at all, made of operands whose written width or sign differs from the field they are rendered into
+# constants written as 16 bits whose value fits 8 (and others), used alone and as terms of constant expressions
+CONSTS = ["PORT EQU $0020", "COUNT EQU 16", "WIDE EQU $1234", "NEGC EQU -3", "START LDA PORT+1", " LDB PORT", " LEAX COUNT+2,PCR", " STA DATA",
+          "LOOP LDX #COUNT-1", " LDD WIDE+1", " LDA PORT-1", " BNE LOOP", " STB COUNT+1,X", " LDA #NEGC", " RTS", "DATA RMB 2"]
+LOCAL_BIG = {"consts": CONSTS}
 NOSYM = [" LDD #-2", " ADDD $10,X", " STD [$40]", " LDA -5", " LDX [5,X]", " CMPX #-128", " LDB #-1", " JMP >-2", " RTS"]
 
 
@@ -126,7 +130,7 @@ def cases(tier, seed):
         for d in (1, 0x10, 0x20, 0x80, 0xE0):
             if d0 + d + 8 <= 0x100:
                 yield {"tworeg": d0, "tr": "shift2", "arg": d}
-    for name in ("readme", "xref", "pcr", "strings", "exprs", "nosym"):
+    for name in ("readme", "xref", "pcr", "strings", "exprs", "nosym", "consts"):
         for d in SHIFTS:
             yield {"big": name, "tr": "shift", "arg": d}
             yield {"big": name, "tr": "shift", "arg": d, "olab": True}
@@ -189,7 +193,7 @@ def base_lines(case):
         return ["S0 NOP", "LA LEAX {},PCR".format(r[0]), " RMB {}".format(g0), "LB LEAY {},PCR".format(r[1]), "M1 RMB {}".format(g1),
                 "LC LDD {},PCR".format(r[2]), "M2 NOP", "S4 NOP"], None
     if "big" in case:
-        lines = [ln for ln in (NOSYM if case["big"] == "nosym" else c19.BIG[case["big"]])]
+        lines = [ln for ln in (NOSYM if case["big"] == "nosym" else LOCAL_BIG[case["big"]] if case["big"] in LOCAL_BIG else c19.BIG[case["big"]])]
         lines = [ln for ln in lines if fields(ln)[1] not in ("ORG",)]
         labels = []
         return lines, None
@@ -405,25 +409,28 @@ def check_case(case):
             names = [fields(l)[0] for l in lines0 if fields(l)[0]]
             if not names:
                 return res            # ZNEW EQU ZNEW is invalid by itself
-        target = names[0] if names else "ZNEW"
-        extra = "ZNEW {} {}".format(mnem, optxt.replace("{L}", target))
-        out = common.assemble_confirm(base + [extra])
-        if out["kind"] != "OK":
-            alone = common.assemble_confirm([base[0], extra.replace(target, "ZNEW") if not names else extra] + ([] if names else []))
-            if out["kind"] == "DIAG" and (kind == "equ" or mnem in ("END",)) and False:
-                pass
-            # a suffix that is invalid by itself (e.g. short branch out of range to a far label) is not a violation
-            far = mnem in R.MNEM and "REL8" in R.MNEM[mnem] and len(ref["image"]) > 120
-            if not far:
-                bad("appending a statement makes the program rejected", "accepted", common.outcome_brief(out))
-        else:
-            n = len(base)
-            if out["image"][:len(ref["image"])] != ref["image"]:
-                bad("appending a statement changes earlier bytes", ref["image"].hex()[:40], out["image"].hex()[:40])
-            elif out["addrs"][:n] != ref["addrs"]:
-                bad("appending a statement changes earlier addresses", ref["addrs"], out["addrs"][:n])
-            elif any(out["symbols"].get(k) != v for k, v in ref["symbols"].items()):
-                bad("appending a statement changes earlier symbol values", ref["symbols"], out["symbols"])
+        targets = [names[0] if names else "ZNEW"]
+        if arg == "equ.lbl":      # an alias of every constant of the program as well (NEW EQU OLD after the last statement)
+            targets += [fields(l)[0] for l in lines0 if fields(l)[0] and fields(l)[1] == "EQU" and fields(l)[0] not in targets]
+        for target in targets:
+            extra = "ZNEW {} {}".format(mnem, optxt.replace("{L}", target))
+            out = common.assemble_confirm(base + [extra])
+            if out["kind"] != "OK":
+                alone = common.assemble_confirm([base[0], extra.replace(target, "ZNEW") if not names else extra] + ([] if names else []))
+                if out["kind"] == "DIAG" and (kind == "equ" or mnem in ("END",)) and False:
+                    pass
+                # a suffix that is invalid by itself (e.g. short branch out of range to a far label) is not a violation
+                far = mnem in R.MNEM and "REL8" in R.MNEM[mnem] and len(ref["image"]) > 120
+                if not far:
+                    bad("appending a statement makes the program rejected", "accepted", common.outcome_brief(out))
+            else:
+                n = len(base)
+                if out["image"][:len(ref["image"])] != ref["image"]:
+                    bad("appending a statement changes earlier bytes", ref["image"].hex()[:40], out["image"].hex()[:40])
+                elif out["addrs"][:n] != ref["addrs"]:
+                    bad("appending a statement changes earlier addresses", ref["addrs"], out["addrs"][:n])
+                elif any(out["symbols"].get(k) != v for k, v in ref["symbols"].items()):
+                    bad("appending a statement changes earlier symbol values", ref["symbols"], out["symbols"])
     res["state"] = "{}:{}".format(tr, zlib.crc32(ref["image"]))
     res["outcome"] = "violation" if viol else "ok"
     if viol:
